@@ -1077,6 +1077,33 @@ pub fn run(shard: &Shard) -> Report {
                 } else {
                     c.steps = steps;
                 }
+                // the inconsistent creation attempt reduced to the policies of the rule
+                if let Some(qb) = c.q_bad.clone() {
+                    let mut e = Q::default_of(c.kind);
+                    match (&mut e, &qb) {
+                        (Q::T(e), Q::T(b)) => {
+                            e.history = b.history.clone();
+                            e.resource_limits = b.resource_limits.clone();
+                        }
+                        (Q::W(e), Q::W(b)) => {
+                            e.history = b.history.clone();
+                            e.resource_limits = b.resource_limits.clone();
+                            e.representation = b.representation.clone();
+                        }
+                        (Q::R(e), Q::R(b)) => {
+                            e.history = b.history.clone();
+                            e.resource_limits = b.resource_limits.clone();
+                            e.deadline = b.deadline.clone();
+                            e.time_based_filter = b.time_based_filter.clone();
+                        }
+                        _ => {}
+                    }
+                    let mut c5 = c.clone();
+                    c5.q_bad = Some(e);
+                    if test(&c5) {
+                        c = c5;
+                    }
+                }
                 // try the default creation QoS
                 let mut c4 = c.clone();
                 c4.q0 = Q::default_of(c.kind);
